@@ -538,6 +538,11 @@ def run_operator(sc: dict, wall_limit: float = 60.0) -> dict:
         loop = asyncio.get_running_loop()
         cluster = Cluster19([fakeapi.NAMESPACES, fakeapi.CRDS])
         rebase_versions(cluster, sc.get("rv0"))
+        if sc.get("meta_lag"):
+            # the events of the meta-resources reach the observers late (a loaded API server, a slow informer path):
+            # {"customresourcedefinitions": seconds, "namespaces": seconds}; the objects' own watches are not delayed
+            lag = {k: float(v) for k, v in sc["meta_lag"].items()}
+            cluster.echo_delay = lambda w, t, o: lag.get(w.res.plural, 0.0)
         # per-scenario resource definitions (never the shared module-level ones when the verbs are varied)
         RES = dict(RES_BY_NAME)
         for p, verbs in (sc.get("verbs") or {}).items():
@@ -690,6 +695,7 @@ def run_operator(sc: dict, wall_limit: float = 60.0) -> dict:
         # the orchestrator protocol as a label trace (Model/C19_Orchestrator): revise / acquire / termDone / spawnAll / die
         from kopf._cogs.structs import references as _refs
         orch_trace: list = []
+        revisions: list = []
         deaths: list = []
         watched_tasks: dict = {}
 
@@ -706,6 +712,7 @@ def run_operator(sc: dict, wall_limit: float = 60.0) -> dict:
 
             def notify_all() -> None:        # every writer of the insights calls it inside its critical section
                 orch_trace.append(["revise", snapshot(ins)])
+                revisions.append([loop.time(), snapshot(ins)])
                 real_notify()
             ins.revised.notify_all = notify_all  # type: ignore[method-assign]
             return ins
@@ -839,6 +846,15 @@ def run_operator(sc: dict, wall_limit: float = 60.0) -> dict:
                             setattr(rd, "categories" if name == "set_categories" else "shortnames", tuple(o[2]))
                 bump["n"] += 1      # the CRD object itself is MODIFIED: the observer re-scans its group
                 cluster.edit(fakeapi.CRDS, None, f"{base.plural}.{base.group}", {"spec": {"rev": bump["n"]}})
+            elif name == "touch_crd":
+                # the CRD object is MODIFIED and nothing about the resource changes (a status condition, an annotation,
+                # a re-applied manifest): the observer re-scans its API group and finds what it knew
+                bump["n"] += 1
+                cluster.edit(fakeapi.CRDS, None, f"{RES[o[1]].plural}.{RES[o[1]].group}", {"spec": {"rev": bump["n"]}})
+            elif name == "touch_ns":
+                # a namespace is MODIFIED (a label): still the same namespace
+                bump["n"] += 1
+                cluster.edit(fakeapi.NAMESPACES, None, o[1], {"metadata": {"labels": {"rev": str(bump["n"])}}})
             elif name == "fail":
                 rule = {"plural": o[1], "status": int(o[2]), "count": int(o[3])}
 
@@ -889,6 +905,7 @@ def run_operator(sc: dict, wall_limit: float = 60.0) -> dict:
             alive = op.alive
             state_on["on"] = False
             trace_at_end = list(orch_trace)
+            t_trace_end = loop.time()
             err = None
             if not alive and op.task is not None:
                 with contextlib.suppress(BaseException):
@@ -900,6 +917,15 @@ def run_operator(sc: dict, wall_limit: float = 60.0) -> dict:
                                         "response": r["response"]} for r in cluster.requests
                                        if r["method"] == "GET" and r["query"].get("watch") == "true"],
                     "ns_feed": ns_feed, "passes": passes, "orch_trace": trace_at_end, "deaths": deaths,
+                    "revisions": [x for x in revisions if x[0] <= t_trace_end], "t_end": t_trace_end,
+                    # cluster-level: every 404 answered to a list/watch request of an object resource, and every stored
+                    # version of every namespace object (each one is an event on the namespaces' watch)
+                    "not_found_log": [[r["t"], r["path"].rstrip("/").split("/")[-1],
+                                       (r["path"].rstrip("/").split("/")[-2] if r["path"].rstrip("/").split("/")[-3:-2] == ["namespaces"] else None)]
+                                      for r in cluster.requests if r["method"] == "GET" and r["response"] == 404
+                                      and r["path"].rstrip("/").split("/")[-1] in RES_BY_NAME],
+                    "ns_events": sorted([v["t"], k[2], v["event"]] for k, vs in cluster.history.items()
+                                        if k[0][2] == "namespaces" for v in vs),
                     "pauses": pauses, "initial_cluster_namespaces": initial_cluster_namespaces,
                     # every stored version of every CRD object: each one is an event that makes the observer re-scan that API group
                     "crd_events": sorted([v["t"], k[2], v["event"]] for k, vs in cluster.history.items()
